@@ -856,6 +856,7 @@ fn c11(cfg: &CCfg, e: &Exec, f: &Facts, vs: &mut Vec<Violation>, nt: &mut bool) 
     // wire-derived outstanding count, maintained along the log
     let mut outstanding: BTreeSet<u64> = BTreeSet::new();
     let mut deadlines: BTreeMap<u64, i128> = BTreeMap::new();
+    let mut fatal = false;
     let mut ever = 0;
     for r in &e.recs {
         match r {
@@ -873,6 +874,17 @@ fn c11(cfg: &CCfg, e: &Exec, f: &Facts, vs: &mut Vec<Violation>, nt: &mut bool) 
             Rec::T { side: 0, op: Op::Next, res: Res::Item, msg: Some(m), .. } => {
                 outstanding.remove(&m.id());
             }
+            Rec::T { side: 0, op, res: Res::Err, msg, .. } => {
+                match (op, msg) {
+                    // a failed request write ends only that request
+                    (Op::Send, Some(Msg::Req { id, .. })) => {
+                        outstanding.remove(id);
+                    }
+                    // anything else is fatal: the dispatch fails every call and forgets them
+                    _ => fatal = true,
+                }
+            }
+            Rec::N("snap", _) if fatal => {}
             Rec::N("snap", s) => {
                 let (inf, _tim, now) = (s[0], s[1], s[2]);
                 if inf > cfg.max_in_flight as i128 {
@@ -1333,7 +1345,7 @@ pub fn configs(prop: CProp, tier: Tier) -> Vec<CCfg> {
                                     continue;
                                 }
                                 let mut callers: Vec<CallerCfg> = Vec::new();
-                                for i in 0..(if thorough { 6usize } else { 5 }) {
+                                for i in 0..(if thorough { 6usize } else { 4 }) {
                                     let mut c = CallerCfg::simple(pol[i % 3]);
                                     c.deadline_ms = dl;
                                     if i >= 3 {
@@ -1344,6 +1356,15 @@ pub fn configs(prop: CProp, tier: Tier) -> Vec<CCfg> {
                                 let mut c = base(callers.clone(), mif, buf, *fl, *cap, alpha);
                                 c.keep_root = true;
                                 out.push(c);
+                                // a failed request write must reclaim its entry and timer too
+                                if buf == 1 {
+                                    for k in 1..=(if thorough { 3u32 } else { 2 }) {
+                                        let mut c = base(callers.clone(), mif, buf, *fl, *cap, alpha);
+                                        c.keep_root = true;
+                                        c.fault = Some(Fault { op: Op::Send, k, sticky: false, eof: false });
+                                        out.push(c);
+                                    }
+                                }
                                 let mut cs = callers.clone();
                                 cs[1].script = Script::AbandonAfter(1);
                                 let last = cs.len() - 1;
